@@ -583,7 +583,9 @@ DOC_MODELS = [
 STENV = {'__T': ('path', 'Handler', ()), '__I': ('path', 'ChunkIter', ()), '__O': ('path', 'Out', ())}
 
 
-def make_send(prog, servers, handles, rets):
+def make_send(prog, servers, handles, rets, async_server=False):
+    """async_server: `handles` are the AsyncEndpoint::handle coroutine bodies (`handle::{closure#0}`); they are polled once (every
+    awaited future is Ready: the body stream, the deserializer futures and the handler's own future)"""
     def T_send(it, ctx, args, st):
         req = args[1]
         st.aux['sent'] = req
@@ -601,7 +603,11 @@ def make_send(prog, servers, handles, rets):
         runtime = Agg('Arc', (c11.runtime_value(st, ['JsonEncoding', 'SmileEncoding']),))
         endpoint = st.ref(Agg('Endpoint', (handler, runtime)))
         ext = st.ref(Agg('ResponseExtensions', (None,)))
-        for s2, rv in it.run(handles[name], [endpoint, sreq, ext], st, STENV):
+        if async_server:
+            outs = bodyio.poll_once(it, st, handles[name], Coro('async-handle', bv(0, 32), (endpoint, sreq, ext), ()), STENV)
+        else:
+            outs = it.run(handles[name], [endpoint, sreq, ext], st, STENV)
+        for s2, rv in outs:
             if is_abnormal(rv):
                 yield s2, rv
                 continue
@@ -646,12 +652,17 @@ def T_handler(it, ctx, args, st):
     yield st, it.ok(h.fields[1])
 
 
-def server_metadata(prog, it, crate=None, pat=r'::__(E\d+)Endpoint<', exclude=None):
+def T_handler_async(it, ctx, args, st):
+    for s2, r in T_handler(it, ctx, args, st):
+        yield s2, Agg('ReadyFuture', (r,))
+
+
+def server_metadata(prog, it, crate=None, pat=r'::__(E\d+)Endpoint<', exclude=None, only=None):
     """{endpoint: (method, [('lit', bytes) | ('param', name)])} from the MIR of EndpointMetadata::method / path of the expansion"""
     out, handles = {}, {}
     for k, f in prog.fns.items():
         m = re.search(pat, f.header)
-        if not (k.startswith((crate or ep.CRATE) + '::') and m) or (exclude and exclude in f.header):
+        if not (k.startswith((crate or ep.CRATE) + '::') and m) or (exclude and exclude in f.header) or (only and only not in f.header):
             continue
         name = m.group(1).lower()
         last = re.sub(r'#\d+$', '', k.rsplit('::', 1)[-1])
@@ -675,7 +686,7 @@ def server_metadata(prog, it, crate=None, pat=r'::__(E\d+)Endpoint<', exclude=No
                     tpl.append(('lit' if vn == 'Literal' else 'param', txt))
                 d['path'] = tpl
         elif last == 'handle':
-            handles[name] = k
+            handles[name] = (k + '::{closure#0}') if (only and (k + '::{closure#0}') in prog.fns) else k
     return {k: (v['method'], v['path']) for k, v in out.items()}, handles
 
 
@@ -1070,6 +1081,57 @@ def run_generated(rep, tier):
         c.ret = it.opt(r_has, rs)
         c.syms = {'set_arg': ('set_str', [s_ for _, s_ in members]), 'opt_body': ('opt_str', (b_has, bs)), 'ret_opt': ('opt_str', (r_has, rs))}
         run_case(rep, it, dec, prog, c, st, tenv, 'async:set1')
+        finish_engine(rep, it)
+    # ---- the generated ASYNC server flavour (AsyncGsvc expanded by #[conjure_endpoints]): blocking generated client -> async endpoints
+    if only in (None, 'asrv'):
+        aservers, ahandles = server_metadata(prog, it0, GCRATE, r'::__(G\d+)Endpoint<', only='AsyncGsvc')
+        if set(aservers) < {'g1', 'g3', 'g4'}:
+            raise Inconclusive(f'C04 harness: generated async endpoints not found: {aservers}')
+
+        def mka(rets):
+            it = mk(rets)
+            for g in ('g1', 'g2', 'g3', 'g4', 'g5'):
+                it.tmodels[('Handler', 'AsyncGsvc', g)] = T_handler_async
+            it.tmodels[('MockClient', 'Client', 'send')] = make_send(prog, aservers, ahandles, rets, async_server=True)
+            return it
+        it = mka({})
+        dec = Decider(rep, it)
+        st = St()
+        c = GenCase('g1', 'Gsvc')
+        path_arg, header_arg = z3.BitVec('path_arg', 32), z3.BitVec('header_arg', 32)
+        qp, qs = sym_str(st, 'query_arg', L)
+        tok, ts = valid_token(st, 'token')
+        c.args = [tok, path_arg, qp, header_arg]
+        c.syms = {'path_arg': ('i32', path_arg), 'query_arg': ('str', qs), 'header_arg': ('i32', header_arg), 'token': ('token', ts)}
+        run_case(rep, it, dec, prog, c, st, tenv, 'blocking:async-server')
+        finish_engine(rep, it)
+        st = St()
+        c = GenCase('g3', 'Gsvc')
+        bp, bs = sym_str(st, 'body_arg', L)
+        rp, rs = sym_str(st, 'ret', L)
+        it = mka({'g3': rs})
+        dec = Decider(rep, it)
+        c.args = [bp]
+        c.ret = rs
+        c.syms = {'body_arg': ('str', bs), 'ret': ('str', rs)}
+        run_case(rep, it, dec, prog, c, st, tenv, 'blocking:async-server')
+        finish_engine(rep, it)
+        st = St()
+        c = GenCase('g4', 'Gsvc')
+        members = [sym_str(st, 'set0', L)]
+        sp = st.ref(Seq(tuple(s_ for _, s_ in members)))
+        bp, bs = sym_str(st, 'opt_body', L)
+        b_has = z3.Bool('opt_body_some')
+        rp, rs = sym_str(st, 'ret_opt', L)
+        r_has = z3.Bool('ret_opt_some')
+        it = mka({})
+        it = mka({'g4': it.opt(r_has, rs)})
+        dec = Decider(rep, it)
+        c.args = [sp, it.opt(b_has, bp)]
+        c.set_args = (0,)
+        c.ret = it.opt(r_has, rs)
+        c.syms = {'set_arg': ('set_str', [s_ for _, s_ in members]), 'opt_body': ('opt_str', (b_has, bs)), 'ret_opt': ('opt_str', (r_has, rs))}
+        run_case(rep, it, dec, prog, c, st, tenv, 'blocking:async-server:set1')
         finish_engine(rep, it)
 
 
